@@ -53,6 +53,11 @@ def fams_for(prop, quick):
             # if-feature, choice / case, list, presence container, grouping + uses, refine); 103xx the same chain as sibling
             # leaves in different contexts
             f += [12311, 12312, 10311]
+            # 140fj decimal64 bounds one unit apart at every fraction-digits value (f = 1..18) and magnitude (j), within 15 significant
+            # digits; 142xx typedef chains of depth 4-5 in every layout over two modules (where the chain leaves module b, local names
+            # that coincide between the modules, bare / own-prefix links); 1041x the same chain in two layouts as sibling leaves
+            f += [14000 + 10 * fd + 6 for fd in range(1, 19)] + [14000 + 10 * fd + 4 for fd in (1, 10, 18)]
+            f += [14211, 14212, 10411]
             rand += [11001]
         else:
             f += [10000 + i for i in (1, 2, 3, 4, 5, 6, 11, 12, 13, 21, 22)] + [10110 + i for i in range(1, 9)] + [10120 + i for i in range(1, 7)] + [10131, 10132, 10133, 10140]
@@ -60,6 +65,8 @@ def fams_for(prop, quick):
             f += [12020 + i for i in range(1, 9)] + [12030] + [12040 + i for i in range(1, 7)] + [10200 + i for i in range(1, 8)]
             f += [12200 + i for i in range(1, 22)] + [12050]
             f += [12300 + i for i in range(1, 7)] + [10300 + i for i in range(1, 7)]
+            f += [14000 + 10 * fd + jj for fd in range(1, 19) for jj in (1, 2, 3)]
+            f += [14201, 14202, 14203, 14204, 14205, 10411, 10412, 10413]
             rand += list(range(11001, 11007))
     else:
         f = [8000 + i for i in range(1, 9)] + [8010 + i for i in range(1, 7)] + [8020, 8021, 8022]
@@ -70,6 +77,12 @@ def fams_for(prop, quick):
         # 803x unions whose members refine the same typedef (side by side, through nested typedef'd / inline unions), typedefs
         # of the same name in two modules; 92xx seeded random unions of that shape; 12306 such unions with defaults in every leaf context
         f += [8038, 8039, 8040] if quick else [8030 + i for i in range(1, 8)] + [12306]
+        # 8051 / 8052 unions with a member that spans the whole type but has holes (multi-part lengths / ranges from min to max), with
+        # patterns and further lengths at other typedef levels, flat and nested; 8053 identityref types on leaves whose statement is
+        # written in another file than the module they belong to (grouping of the other module, augment, submodule) and 10420 leaves of
+        # both modules sharing one identityref typedef; 81fj decimal64 bounds one unit apart (see C13) with the rich probes
+        f += [8052, 8053, 10420] if quick else [8051, 8053, 10420, 14204]
+        f += [8100 + 10 * fd + 6 for fd in (1, 6, 12, 18)] if quick else [8100 + 10 * fd + jj for fd in range(1, 19) for jj in (1, 3)]
         rand += [9201, 9202] if quick else list(range(9201, 9213))
         if quick:
             f += [10003, 10006, 10012, 10111, 10112, 10113, 10114, 10116, 10118, 10121, 10124, 10131, 10140]
@@ -166,6 +179,13 @@ def describe(ch):
     where = "" if ch.get("ctx", "plain") == "plain" else " [leaf: %s]" % ch["ctx"]
     if ch.get("lay") == "xmod" and ch.get("mod") == "b" or ch.get("lay") == "xmod" and len(ch["levels"]) > 1:
         where = " [innermost typedef in module a, used from module b]" + where
+    elif ch.get("lay", "").startswith("xm-"):
+        _, sp, naming, spell = ch["lay"].split("-")
+        where = " [%s innermost typedefs in module a, the others in module %s; local names of the two modules: %s; links inside a module: %s]" % (
+            sp, ch.get("mod"), {"same": "numbered per module (coincide)", "mirror": "coincide in reverse order", "uniq": "all different"}.get(naming, naming),
+            "own prefix" if spell == "own" else "bare") + where
+    if ch.get("ctx", "plain") != "plain" and ch.get("mod") == "b":
+        where += " [leaf belongs to module b]"
     return ch["k"] + " " + " <- ".join(lv(l) for l in ch["levels"]) + where
 
 
@@ -226,6 +246,8 @@ def compare(ctx, vec, obs, sites, found):
         if p["acc"] != q["ok"]:
             if "accept" in sites:
                 sig = dict(site="accept", kind=kind, want="accept" if p["acc"] else "reject", lex=p["cls"])
+                if ch.get("ctx", "plain") != "plain":
+                    sig["leafctx"] = ch["ctx"]
                 if kind in ("decimal64", "union"):
                     sig["f64"] = "collapse" if f64_collapse([txt(b) for b in vec["bounds"]], v) else "exact"
                 rep(sig, "Validate(%r): specification %s, code %s; type %s" % (v, "accepts" if p["acc"] else "rejects", "accepts" if q["ok"] else "rejects", describe(ch)),
@@ -303,7 +325,7 @@ def run(ctx):
     maxd = 3
     conc_fams = [f for f in fams if f // 1000 == 13]
     # 1. design laws
-    mcf = laws + ([f for f in fams if f // 1000 in (1, 3, 5, 6, 7, 8, 12) and f != 7003][::4] if quick else [f for f in fams if f // 1000 not in (10, 11)])
+    mcf = laws + ([f for f in fams if f // 1000 in (1, 3, 5, 6, 7, 8, 12, 14) and f != 7003][::4] if quick else [f for f in fams if f // 1000 not in (10, 11)])
     def design_laws():
         ctx.tlc("YangTypesMC", "YangTypesMC.cfg", workers=6, timeout=1200, heap="8g",
                 consts={"Fams": set_lit(mcf), "MaxDepth": maxd})
@@ -459,6 +481,7 @@ def run(ctx):
         "patterns are drawn from a subset common to XSD and RE2 (literals, '.', classes, alternation, grouping, * + ? {m,n})",
         "default app-tags and default messages are not judged, only custom error-message / error-app-tag of violated restrictions",
         "identityref lexemes: bare name for identities of the leaf's module, module:name for others; the two other forms are unjudged",
+        "the module of a leaf is the module whose statements put it into the data tree (the using / augmenting module, the module a submodule belongs to)",
         "a decimal64 range part spanning two base parts exactly one unit apart is judged as not narrowing (parts of a decimal64 range are never contiguous)",
     ])
 
@@ -475,7 +498,10 @@ MANIFEST = {
              "real compiler and probed; seeded random chains with random multi-part ranges are recorded and validated by the trace spec. Groups of 2-3 sibling "
              "leaves compiled in one module set (the same typedef chain of depth 2-4 refined differently, textually identical min/max restrictions over different "
              "bases, both orders, one and two modules, random groups) are judged leaf by leaf: a leaf's type depends only on its own chain. The verdicts are also probed with the leaf in every context it can stand in "
-             "(mandatory, config false, status, if-feature, choice / case, list, presence container, grouping + uses, refine). TLC also proves on the "
+             "(mandatory, config false, status, if-feature, choice / case, list, presence container, grouping + uses, refine; statement written in a grouping of the other module, "
+             "in an augment, in a submodule). Chains of depth 2-5 are laid out over two modules in every way (where the chain leaves the importing module, typedefs of the two modules "
+             "with the same local name, bare and own-prefix references); decimal64 bounds one unit apart are enumerated for every fraction-digits value 1..18 at three magnitudes "
+             "within 15 significant digits. TLC also proves on the "
              "spec that legal narrowing makes the innermost range sufficient and that Covered equals value-set inclusion.",
              note="bound texts in canonical form only; decimal64 parts one unit apart are judged non-contiguous; string length bounds stay below 2^31",
              design="4 C13", technique=TY),
@@ -487,7 +513,8 @@ MANIFEST = {
              "textually identical restriction arguments over different bases are compiled together (one module, two modules parsed with shared interners, both "
              "orders) and each is judged by its own Accepts with the probes of all of them. Unions whose members refine the same typedef "
              "(different / equal / no inline restrictions; side by side, through nested typedef'd and inline unions, typedefs of the same name in two "
-             "modules; seeded random unions) are accepted iff some member accepts.",
+             "modules; seeded random unions) are accepted iff some member accepts, also when a member spans the whole type with holes (length 0..3 | 8..max). "
+             "Identityref values are spelt relative to the module the leaf belongs to wherever its statement is written (grouping of the other module, augment, submodule).",
              note="default messages and app-tags are not judged; union rejections carry no judged message; leading/trailing whitespace is not generated",
              design="4 C16", technique=TY),
 }
